@@ -228,6 +228,10 @@ class SeqView(Abstract):
     self.length, self.elt, self.src = length, elt, src
 
 
+class SpecIter(Abstract):
+  """Result of an abstract generator call that is only drained (`for _ in it: pass`)."""
+
+
 class SuperObj(Abstract):
   def __init__(self, selfval):
     self.selfval = selfval
